@@ -16,8 +16,8 @@ def bounded(tier, seed, fallback_for):
 
 MANIFEST = {
     "category": "exploration",
-    "technique": "bounded stand-in: real commands on generated temporary trees against independently computed expectations (contracts where listed in evidence)",
-    "text": 'Edit histories are replayed on temporary trees with the real scan command (bounded); the per-step argument (cache consulted only per walked file, reuse only on equal checksum and version) is the reason it holds for all histories.',
-    "note": "bounded; the operating system, Pygments and pathspec are outside any contract we can discharge",
+    "technique": "contracts on the real functions discharged by z3/cvc5 (pyvc) for the per-call obligations; bounded stand-in on generated temporary trees for the whole statement",
+    "text": 'Edit histories are replayed on temporary trees with the real scan command and compared with from-scratch scans (bounded: 16 operations incl. layout-only edits, renames across languages, caches without / with another version, as singles, pairs and random histories). Discharged for all inputs: _scan_file reuses a cached entry exactly when the same relative path has the same checksum and otherwise analyses the file; _read_cached_report returns None for any unreadable or foreign-version cache and never raises.',
+    "note": 'bounded for the history; the per-step contracts are the reason it holds for every history; ReportReader.from_json and calculate_checksum are assumed',
     "design_ref": "DESIGN.md §6 C09",
 }
